@@ -95,7 +95,7 @@ done:
 
 	panic(fmt.Errorf("impl $M"))
 	// trailing comment of $M`},
-	{Name: "one-line", OneLine: true, Body: `panic(fmt.Errorf("impl $M"))`},
+	{Name: "non-ascii", Doc: "// $M \u2013 r\u00e9sum\u00e9 \u2713 (multi-byte text before and inside the body).", Body: "\tl1 := \"h\u00e9llo \u2713 } \u4e16\u754c {\"\n\t// \u00fcber-comment }\n\t_ = l1\n" + plainBody},
 	{Name: "one-line-tight", OneLine: true, Tight: true, Body: `panic(fmt.Errorf("impl $M"))`}, // {stmt} without blanks: valid Go, not gofmt-ed
 	{Name: "doc-blank-lines", Doc: "// $M has a long doc comment.\n//\n// Second paragraph after a blank comment line:\n//   - item one\n//   - item two\n//\n// Deprecated: third paragraph of $M.", Body: plainBody},
 	{Name: "doc-go-directive", Doc: "// $M must not be inlined.\n//\n//go:noinline", Body: plainBody},
